@@ -619,7 +619,44 @@ def make_response(kind):
                 yield b"chunk %d" % i
 
         return StreamResponse(slow(), 403)
+    if kind in ("failstream0", "failstream1", "failstream3", "failsse1"):
+        # a denial response whose body producer fails after the response has started
+        n = int(kind[-1])
+
+        async def failing():
+            for i in range(n):
+                yield ({"data": f"e{i}"} if kind.startswith("failsse") else b"chunk %d" % i)
+            raise _ProducerFailed(f"producer failed after {n} item(s)")
+
+        if kind.startswith("failsse"):
+            from baize.asgi import SendEventResponse
+
+            return SendEventResponse(failing(), 403, ping_interval=30)
+        return StreamResponse(failing(), 403)
     raise core.HarnessError(kind)
+
+
+class _ProducerFailed(Exception):
+    pass
+
+
+def denial_prefix_legal(events, extension):
+    """Prefix rule for a denial that ended in the producer's exception: what was forwarded is the beginning of one legal
+    refusal - nothing, or a started denial response with body events that all announce more; never a close after the start."""
+    types = [e.get("type") for e in events]
+    if not extension:
+        return None if types in ([], ["websocket.close"]) else f"without the extension at most one websocket.close is legal, got {types}"
+    if not events:
+        return None
+    if types[0] != "websocket.http.response.start":
+        return f"first event {events[:1]!r}"
+    for i, e in enumerate(events[1:]):
+        if e.get("type") != "websocket.http.response.body":
+            return f"event {i + 1} after the response start is {e.get('type')!r}"
+    finals = [i for i, e in enumerate(events[1:]) if not e.get("more_body", False)]
+    if finals and finals[0] != len(events) - 2:
+        return f"body event {finals[0]} is final but {len(events) - 2 - finals[0]} event(s) follow"
+    return None
 
 
 def oracle_denial(case) -> Result:
@@ -685,6 +722,8 @@ def oracle_denial(case) -> Result:
         _run(app(scope, receive, send))
     except (ValueError, OSError) as exc:
         raised = exc  # an event that cannot be expressed as a denial response may be refused ...
+    except _ProducerFailed as exc:
+        raised = exc  # the producer's own exception may escape; what was forwarded must still be a legal prefix
     if ran:
         r.fail(f"C11:denial:{via}:view-ran", f"{case!r}: the http view ran for a websocket scope; events {sent!r}")
     foreign = [e.get("type") for e in sent if not str(e.get("type", "")).startswith("websocket.")]
@@ -704,7 +743,10 @@ def oracle_denial(case) -> Result:
         # no response object to send: the only way to refuse is a close, whatever the server offers
         bad = denial_sequence_legal(sent, False)
     else:
-        bad = None if (raised is not None and kind == "file") else denial_sequence_legal(sent, ext)
+        if kind.startswith("fail"):
+            bad = denial_prefix_legal(sent, ext is True)
+        else:
+            bad = None if (raised is not None and kind == "file") else denial_sequence_legal(sent, ext)
     if bad:
         r.fail(f"C11:denial:{via}:{'ext' if ext else 'noext'}", f"{case!r}: {bad}; events {sent!r}")
     r.label(f"via={via}", f"ext={case['extension']}", f"resp={kind}", f"recv={recv}")
@@ -951,6 +993,10 @@ def denial_cases():
         for ext in (False, True):
             yield {"via": "denial", "response": kind, "extension": ext, "recv": "disconnect"}
     yield {"via": "request_response", "response": "empty404", "extension": True, "recv": "disconnect"}
+    # the denial response fails after it has started
+    for kind in ("failstream0", "failstream1", "failstream3", "failsse1"):
+        for ext in (False, True, "other"):
+            yield {"via": "denial", "response": kind, "extension": ext}
 
 
 def session_cases(maxlen):
